@@ -187,7 +187,8 @@ fn fee_lattice(run: &Run, tier: Tier) -> Local {
 /// change outputs, a dust threshold T, a minimum split value v in {1, T/4, T, 2T}, every candidate
 /// number of change outputs m <= n, every change pool p and every gap g between two fee estimates
 /// of the same request (fee with a outputs minus fee with b outputs, 0 <= b < a <= n, and 0, both
-/// signs), the input is chosen such that
+/// signs), and for flows with an Ironwood output the anchor on and one block off the grid, the input
+/// is chosen such that
 ///     total_in - outputs - ZIP317(shape with m change outputs in p) = m*B + g + d,
 /// B in {T, v}, d in {-1, 0, +1}. The fees are the reference model's; the derived values only decide
 /// which cases exist, the verdict is the ordinary oracle's.
@@ -208,7 +209,15 @@ fn boundary_slice(run: &Run, tier: Tier, net: &zcash_protocol::local_consensus::
     for pool in [T, S, O, I] {
         out_shapes.push(vec![item(pool, 10_000)]);
     }
+    // would-be canonical ZIP 318 crossings (with an Orchard variable input and an on-grid anchor):
+    // a single Ironwood payment of canonical denomination, and the off-denomination control. Crossed
+    // with the reduced-split bands below this reaches "exactly 2 .. target-1 Orchard change outputs"
+    // beside an unpadded-or-not Ironwood bundle (the fee re-costing branch).
+    out_shapes.push(vec![item(I, 1_000_000)]);
+    out_shapes.push(vec![item(I, 1_000_001)]);
     if tier == Tier::Thorough {
+        out_shapes.push(vec![item(I, 100_000_000)]);
+        out_shapes.push(vec![item(I, 1_000_000), item(T, 10_000)]);
         out_shapes.push(vec![item(S, 10_000), item(I, 10_000)]);
         out_shapes.push(vec![item(T, 10_000), item(O, 0)]);
         out_shapes.push(vec![item(S, 60_000), item(S, 0)]);
@@ -258,11 +267,14 @@ fn boundary_slice(run: &Run, tier: Tier, net: &zcash_protocol::local_consensus::
             let min_h = space::flow_min_height(&ins, outs);
             let ov = harness::out_views(outs);
             let mut case = Case { ins: ins.clone(), outs: outs.clone(), cfg: space::baseline() };
-            for cfg in cfgs.iter() {
+            let has_i_out = outs.iter().any(|o| o.pool == I);
+            let rems: &[u32] = if has_i_out { &[0, 1] } else { &[0] };
+            for (cfg, rem) in cfgs.iter().flat_map(|c| rems.iter().map(move |r| (c, *r))) {
                 if cfg.height < min_h {
                     continue;
                 }
                 case.cfg = *cfg;
+                case.cfg.anchor_rem = rem;
                 case.ins[0].value = 1_000_000;
                 let f = Facts::new(&case);
                 let n = cfg.split_target as i128;
@@ -333,7 +345,7 @@ pub fn run(args: &Args) -> i32 {
          inputs by more than 1.1e6 zatoshi get only the default-dust-policy part of CV; a configuration is used for a flow only if every pool the flow touches and the fallback pool exist at the target height; anchors off the grid only for flows with an Ironwood output. \
          change-boundary slice: (variable input pool, optional fixed second input, requested outputs) x multi-output strategies with target 2/3/4, dust policy, \
          min split value {1, T/4, T, 2T}, where the variable input's value is derived so that the total change is m*T or m*minsplit, +-1, plus/minus every gap between two \
-         fee estimates of the request, for every m <= target and every change pool (split_min never equals the 100000 used elsewhere, so no case repeats). \
+         fee estimates of the request, for every m <= target and every change pool; output shapes include a single Ironwood payment of canonical (10^6) and off-denomination (10^6+1) value with the anchor on/off the grid (split_min never equals the 100000 used elsewhere, so no case repeats). \
          fee cases: (rule, transparent input sizes, output sizes, sapling spends/outputs, orchard actions, ironwood actions) over a size/count lattice. \
          Every case is distinct by construction and executes the real code once",
     );
